@@ -117,3 +117,52 @@ Proof.
   - exfalso. apply Hz. apply full_norm_zero_iff. exact E0.
   - unfold hom_rate. rewrite hom_rate_gen_R, Hf. reflexivity.
 Qed.
+
+(* ---- the executable twin over Q stands for the real outcome, whenever its phase table is the image of the real phases *)
+From Coq Require Import QArith Qreals.
+From SpdVerif Require Import Proofs.FinSum_morph Proofs.C09_exec.
+
+Lemma Qeq_bool_Q2R x : Qeq_bool x 0 = true <-> Q2R x = 0%R.
+Proof.
+  rewrite Qeq_bool_iff. split.
+  - intros H. rewrite (Qeq_eqR _ _ H). apply Q2R_0.
+  - intros H. apply eqR_Qeq. rewrite H, Q2R_0. reflexivity.
+Qed.
+
+Lemma RC_as_arr (f : list (cx Q)) k : arr (0, 0)%R (map Q2C f) k = cmap Q2R (arr (0, 0)%Q f k).
+Proof. symmetry. apply RC_arr. Qed.
+
+Theorem hom_rate_total_Q_correct (g : grid R) (f gs : list (cx Q)) (u : nat -> cx Q) (tau : R) (norm : option Q) :
+  (forall k, (k < grid_len g)%nat -> hom_phase g tau k = cmap Q2R (u k)) ->
+  hom_rate_total g (map Q2C f) (map Q2C gs) tau (option_map Q2R norm)
+  = outcome_of_q (hom_rate_total_Q (grid_len g) f gs u norm).
+Proof.
+  intros Hu. unfold hom_rate_total, hom_rate_total_Q. rewrite !map_length.
+  destruct (idx_panics (grid_len g) (length f) (length gs)); [reflexivity|]. cbv zeta.
+  set (nq := match norm with Some x => x | None => jsi_norm QOps (length f) (arr (0, 0)%Q f) end).
+  assert (En : match option_map Q2R norm with Some x => x | None => jsi_norm ROps (length f) (arr (0, 0)%R (map Q2C f)) end = Q2R nq).
+  { unfold nq. destruct norm; cbn [option_map]; [reflexivity|]. symmetry. apply jsi_norm_Q_correct. }
+  rewrite En.
+  assert (Er : hom_sum ROps (grid_len g) (arr (0, 0)%R (map Q2C f)) (arr (0, 0)%R (map Q2C gs)) (hom_phase g tau)
+               = Q2R (hom_sum QOps (grid_len g) (arr (0, 0)%Q f) (arr (0, 0)%Q gs) u)).
+  { rewrite (hom_sum_morph Q2R QOps ROps Q2R_morph). rewrite !hom_sum_rsum. apply rsum_ext. intros k Hk.
+    rewrite !RC_as_arr, (Hu k Hk). reflexivity. }
+  rewrite Er.
+  destruct (Qeq_bool nq 0) eqn:Bn.
+  - apply Qeq_bool_Q2R in Bn. destruct (Req_EM_T (Q2R nq) 0) as [_|C]; [|contradiction].
+    destruct (Qeq_bool (hom_sum QOps (grid_len g) (arr (0, 0)%Q f) (arr (0, 0)%Q gs) u) 0) eqn:Br.
+    + apply Qeq_bool_Q2R in Br. destruct (Req_EM_T _ 0) as [_|C]; [reflexivity|contradiction].
+    + destruct (Req_EM_T _ 0) as [C|_]; [|reflexivity]. apply Qeq_bool_Q2R in C. congruence.
+  - destruct (Req_EM_T (Q2R nq) 0) as [C|NZ]; [apply Qeq_bool_Q2R in C; congruence|].
+    cbn [outcome_of_q]. f_equal.
+    rewrite (hom_rate_gen_morph Q2R QOps ROps Q2R_morph _ _ _ _ _ otwo_R_neq NZ), hom_rate_gen_R.
+    rewrite <- (hom_sum_morph Q2R QOps ROps Q2R_morph). reflexivity.
+Qed.
+
+Corollary hom_rate_total_Q0_correct (g : grid R) (f gs : list (cx Q)) (norm : option Q) :
+  hom_rate_total g (map Q2C f) (map Q2C gs) 0 (option_map Q2R norm)
+  = outcome_of_q (hom_rate_total_Q (grid_len g) f gs (fun _ => cone QOps) norm).
+Proof.
+  apply hom_rate_total_Q_correct. intros k _. rewrite hom_phase_zero.
+  unfold cmap, cone. cbn [fst snd QOps o0 o1]. rewrite Q2R_0, Q2R_1. reflexivity.
+Qed.
